@@ -9,6 +9,7 @@ import (
 	"fmt"
 	"sort"
 	"strings"
+	"sync"
 
 	sdcpb "github.com/sdcio/sdc-protos/sdcpb"
 	"github.com/sdcio/yang-parser/xpath"
@@ -95,8 +96,10 @@ type Tree struct {
 	// entry is free to do so); what an evaluation does with such a path must not show in the next one.  Not for
 	// concurrent use.
 	SharedPaths bool
-	stored      map[string]*sdcpb.Path
-	storedIDs   map[string]ID
+	// Paths: like SharedPaths, with a store that may be shared by trees and goroutines (C06)
+	Paths     *PathStore
+	stored    map[string]*sdcpb.Path
+	storedIDs map[string]ID
 }
 
 // FaultError is the sentinel returned by an injected fault.
@@ -303,7 +306,56 @@ func DefaultLeafRef(id ID) ID {
 	return ID{{Name: "lr"}, {Name: "target", Keys: map[string]string{"from": id.String()}}}
 }
 
+// PathStore keeps the path objects a tree hands out, one per node, for any number of trees and goroutines: a data tree
+// that stores its paths answers every request for a node's path with the same object.  The element slice of a stored
+// path has room behind its last element, as a slice that was built by appending has.
+type PathStore struct {
+	m sync.Map // id -> *storedPath
+}
+
+type storedPath struct {
+	p    *sdcpb.Path
+	want ID
+}
+
+// Damage tells what an evaluation has done to a stored path: its elements and the room behind them are the tree's.
+func (s *PathStore) Damage() string {
+	msg := ""
+	s.m.Range(func(k, v any) bool {
+		sp := v.(*storedPath)
+		el := sp.p.GetElem()
+		ok := len(el) == len(sp.want)
+		for i := 0; ok && i < len(sp.want); i++ {
+			ok = el[i].GetName() == sp.want[i].Name && len(el[i].GetKey()) == len(sp.want[i].Keys)
+		}
+		if !ok {
+			msg = fmt.Sprintf("the path object the data tree keeps for node %s now reads %s", k, PathString(sp.p))
+			return false
+		}
+		for i, x := range el[:cap(el)][len(el):] {
+			if x != nil {
+				msg = fmt.Sprintf("the room behind the path the data tree keeps for node %s has been written to (slot %d: %s)", k, len(el)+i, x.GetName())
+				return false
+			}
+		}
+		return true
+	})
+	return msg
+}
+
 func (e *Entry) GetSdcpbPath() *sdcpb.Path {
+	if e.T.Paths != nil {
+		key := e.Id.String()
+		if v, ok := e.T.Paths.m.Load(key); ok {
+			return v.(*storedPath).p
+		}
+		p := e.freshPath()
+		el := make([]*sdcpb.PathElem, len(p.Elem), len(p.Elem)+8)
+		copy(el, p.Elem)
+		p.Elem = el
+		v, _ := e.T.Paths.m.LoadOrStore(key, &storedPath{p: p, want: e.Id.clone()})
+		return v.(*storedPath).p
+	}
 	if e.T.SharedPaths {
 		if p, ok := e.T.stored[e.Id.String()]; ok {
 			return p
